@@ -408,7 +408,7 @@ func (e *Env) havocLoc(ctx *SpecCtx, x *SExpr, st *State) {
 		if b, ok := base.(*Slice); ok {
 			et := b.Typ.Underlying().(*types.Slice).Elem()
 			i := ctx.intTerm(ctx.eval(x.Args[1]))
-			p := &Ptr{Kind: "elem", Ref: b.Arr, Idx: addTerms(b.Off, i), Root: et}
+			p := &Ptr{Kind: "elem", Ref: b.Arr, Idx: ixTerm(b.Off, i), Root: et}
 			e.store(st, p, e.freshValue(et, "mod_elem"))
 			return
 		}
@@ -772,8 +772,8 @@ func (e *Env) appendOp(fr *Frame, s *Slice, more Value, st *State) Value {
 			base := mkIte(fits, old, e.copyPrefix(old, s, inner, leaves[i]))
 			base = e.maybeName(base, inner)
 			for j := 0; j < atoi(n); j++ {
-				pos := sx("+", resOff, sx("+", s.Len, fmt.Sprint(j)))
-				base = mkStore(base, pos, mkSelect(src, addTerms(m.Off, fmt.Sprint(j))))
+				pos := ixTerm(resOff, addTerms(s.Len, fmt.Sprint(j)))
+				base = mkStore(base, pos, mkSelect(src, ixTerm(m.Off, fmt.Sprint(j))))
 			}
 			newInner = e.maybeName(base, inner)
 		} else {
@@ -783,10 +783,10 @@ func (e *Env) appendOp(fr *Frame, s *Slice, more Value, st *State) Value {
 			// positions in [resOff+len, resOff+len+n): from more
 			// other positions: in place -> unchanged; realloc -> unspecified
 			lo := sx("+", resOff, s.Len)
-			fact := fmt.Sprintf("(forall ((%s Int)) (! (and (=> (and (<= %s %s) (< %s (+ %s %s))) (= (select %s %s) (select %s (+ %s (- %s %s))))) (=> (and (<= %s %s) (< %s %s)) (= (select %s %s) (select %s (+ %s (- %s %s))))) (=> (and %s (or (< %s %s) (>= %s (+ %s %s)))) (= (select %s %s) (select %s %s)))) :pattern ((select %s %s))))",
+			fact := fmt.Sprintf("(forall ((%s Int)) (! (and (=> (and (<= %s %s) (< %s (+ %s %s))) (= (select %s %s) (select %s %s))) (=> (and (<= %s %s) (< %s %s)) (= (select %s %s) (select %s %s))) (=> (and %s (or (< %s %s) (>= %s (+ %s %s)))) (= (select %s %s) (select %s %s)))) :pattern ((select %s %s))))",
 				j,
-				lo, j, j, lo, n, ni, j, src, m.Off, j, lo,
-				resOff, j, j, lo, ni, j, old, s.Off, j, resOff,
+				lo, j, j, lo, n, ni, j, src, ixTerm(m.Off, sx("-", j, lo)),
+				resOff, j, j, lo, ni, j, old, ixTerm(s.Off, sx("-", j, resOff)),
 				fits, j, lo, j, lo, n, ni, j, old, j,
 				ni, j)
 			e.assume(fact)
@@ -809,8 +809,8 @@ func (e *Env) appendOp(fr *Frame, s *Slice, more Value, st *State) Value {
 func (e *Env) copyPrefix(old string, s *Slice, innerSort string, l Leaf) string {
 	ni := e.fresh("realloc", innerSort)
 	j := "|$j|"
-	e.assume(fmt.Sprintf("(forall ((%s Int)) (! (=> (and (<= 0 %s) (< %s %s)) (= (select %s %s) (select %s (+ %s %s)))) :pattern ((select %s %s))))",
-		j, j, j, s.Len, ni, j, old, s.Off, j, ni, j))
+	e.assume(fmt.Sprintf("(forall ((%s Int)) (! (=> (and (<= 0 %s) (< %s %s)) (= (select %s %s) (select %s %s))) :pattern ((select %s %s))))",
+		j, j, j, s.Len, ni, j, old, ixTerm(s.Off, j), ni, j))
 	return ni
 }
 
@@ -838,8 +838,8 @@ func (e *Env) copyOp(fr *Frame, dst *Slice, srcv Value, rt types.Type, st *State
 		srcA := mkSelect(arr, src.Arr)
 		ni := e.fresh("copied", inner)
 		j := "|$j|"
-		e.assume(fmt.Sprintf("(forall ((%s Int)) (! (ite (and (<= %s %s) (< %s (+ %s %s))) (= (select %s %s) (select %s (+ %s (- %s %s)))) (= (select %s %s) (select %s %s))) :pattern ((select %s %s))))",
-			j, dst.Off, j, j, dst.Off, n, ni, j, srcA, src.Off, j, dst.Off, ni, j, old, j, ni, j))
+		e.assume(fmt.Sprintf("(forall ((%s Int)) (! (ite (and (<= %s %s) (< %s (+ %s %s))) (= (select %s %s) (select %s %s)) (= (select %s %s) (select %s %s))) :pattern ((select %s %s))))",
+			j, dst.Off, j, j, dst.Off, n, ni, j, srcA, ixTerm(src.Off, sx("-", j, dst.Off)), ni, j, old, j, ni, j))
 		e.heapSet(st, name, sorts[i], e.maybeName(mkStore(arr, dst.Arr, ni), sorts[i]))
 		e.noteWrite(name, dst.Arr)
 	}
